@@ -92,6 +92,9 @@ def build_urls(env, rng, tier: str) -> list[dict]:
         {'url': f'/dash/vod/bbb/bbb_v7/{1 + rng.randrange(10)}.m4v', 'kind': 'segment'},
         {'url': f'/dash/vod/tears/tears_a1/{1 + rng.randrange(16)}.m4a', 'kind': 'segment'},
         {'url': f'/dash/vod/bbb/bbb_a1/time/{176128 * rng.randrange(9)}.m4a', 'kind': 'segment'},
+        # options that rewrite the encoded segment in place after it has been built
+        {'url': '/dash/vod/bbb/bbb_v7/3.m4v?vcorrupt=3', 'kind': 'segment'},
+        {'url': f'/dash/live/bbb/bbb_v6/{n}.m4v?start={start}&vcorrupt={n}&frames=2', 'kind': 'segment'},
         {'url': '/dash/odvod/bbb/bbb_t1.mp4', 'kind': 'odvod', 'mandatory': True},
         {'url': '/dash/odvod/bbb/bbb_a1.m4a', 'kind': 'odvod', 'mandatory': True},
         {'url': '/dash/odvod/tears/tears_v1.m4v', 'kind': 'odvod', 'mandatory': True},
